@@ -1,7 +1,7 @@
 """C07 - per-node cash ledger; every trade booked exactly once to the security's own parent."""
 from .. import mon1
 from .. import common, instrument as ins, mon2, w5
-from . import _w1case, _w2case
+from . import _replay, _w1case, _w2case
 
 ID = "C07"
 LEVEL = "exploration"
@@ -15,11 +15,12 @@ def plan(tier):
     n = 1500 if tier == "quick" else 40000
     m = 400 if tier == "quick" else 10000
     return [dict(unit="w1", n=n, builds=["py", "so"], case_timeout=60), dict(unit="w2", n=m, builds=["py", "so"], case_timeout=120),
-            dict(unit="w5", n=m // 2, builds=["py", "so"], case_timeout=120)]
+            dict(unit="w5", n=m // 2, builds=["py", "so"], case_timeout=120),
+            dict(unit="replay", n=m // 3, builds=["py", "so"], case_timeout=180)]
 
 
 def floors(tier):
-    return {"min_decided": 300, "counters": {"ledger_evals": 3000, "trade_booking_evals": 1000, "fee_row_evals": 3000, "c07_ledger_evals": 10000, "c07_trade_booking_evals": 2000, "swept_coupons": 500}, "max_undecided_frac": 0.4}
+    return {"min_decided": 300, "counters": {"ledger_evals": 3000, "trade_booking_evals": 1000, "fee_row_evals": 3000, "c07_ledger_evals": 10000, "c07_trade_booking_evals": 2000, "swept_coupons": 500, "custom_price_trades": 1000}, "max_undecided_frac": 0.4}
 
 
 def run_w5(cs):
@@ -54,7 +55,23 @@ def run_w5(cs):
     return common.result(common.HELD, sig=sig, nt=ntr >= 1, cnt=cnt, res=res, sample=w5.sample_of(spec))
 
 
+def run_replay(cs):
+    got, early = _replay.replay_run(cs)
+    if early is not None:
+        return early
+    run, sig, spec = got
+    cnt, res = {}, {}
+    out = mon2.c07_ledger(run, cnt, res)
+    ncp = sum(1 for e in run.events if e["k"] == "trade" and e["cp"] is not None)
+    common.bump(cnt, "custom_price_trades", ncp)
+    if out:
+        return common.result(common.VIOL, sig=sig, nt=True, cnt=cnt, res=res, mech=out[0], witness=dict(out[1], case_seed=cs, replayed=True, desc=spec["desc"]))
+    return common.result(common.HELD, sig=sig, nt=ncp >= 1, cnt=cnt, res=res, sample={"replayed_custom_price_trades": ncp, "desc": spec["desc"]})
+
+
 def run_case(unit, cs, idx, build, params):
+    if unit == "replay":
+        return run_replay(cs)
     if unit == "w5":
         return run_w5(cs)
     if unit == "w2":
